@@ -199,6 +199,36 @@ def job_worker(part, job):
                 if np.abs(s0 - S0).max() / scale2 > 1e-9 or np.abs(s1 - s0).max() / scale2 > 1e-9:
                     part.fail("power-spectrum-real-layout", "real-layout power spectrum differs from the complex one / is not invariant (L=%d)" % L, case)
                     break
+        # functions whose band limit lies BELOW the stored maximum degree (top degrees exactly zero): number and positions of the
+        # invariants are fixed by L alone, so they are continuous in the coefficients - filling the empty degrees with 1e-12 of
+        # the norm changes N and P^3 by that order only
+        if len(idxs) > 3 or tag.startswith("dense"):
+            for Lb in sorted({L - 1, L - 2, max(3, L // 2)}):
+                if not 3 <= Lb < L:
+                    continue
+                part.tr()
+                cb = c.copy()
+                cb[(Lb + 1) ** 2:] = 0.0
+                nb = math.sqrt(float(np.sum(np.abs(cb) ** 2))) or 1.0
+                k = np.arange(len(cb))
+                fill = np.where(k >= (Lb + 1) ** 2, np.cos(0.7 + 1.3 * k) + 1j * np.sin(0.2 + 0.9 * k), 0.0)
+                if real:
+                    fill = ylm.complete(L, ylm.real_layout_from_full(L, fill))
+                    fill[: (Lb + 1) ** 2] = 0.0
+                cp = np.ascontiguousarray(cb + 1e-12 * nb * fill)
+                Nb, Pb, _ = invariants_of(L, np.ascontiguousarray(cb), sht)
+                Np, Pp, _ = invariants_of(L, cp, sht)
+                case = {"kind": "vec", "L": L, "mode": mode, "real": real, "tag": tag, "idx": list(idxs), "word": ["band-limit", str(Lb)]}
+                if len(Pb) != len(Pp) or len(Nb) != len(Np):
+                    part.fail("band-limit-count", "the number of invariants changes when the top degrees are exactly zero (L=%d, band limit %d)" % (L, Lb), case)
+                    break
+                dN = float(np.abs(Nb - Np).max() / nb)
+                dP = float(np.abs(cube(Pb) - cube(Pp)).max() / nb ** 3) if len(Pb) else 0.0
+                part.dev("band_limit_P_cubed", dP)
+                if dN > 1e-9 or dP > 1e-9:
+                    part.fail("band-limit-discontinuity", "L=%d, band limit %d: filling the empty top degrees with 1e-12 of the norm changes N by %.3g and P^3 by %.3g (relative): invariants of a "
+                              "function stored above its band limit are not at the positions fixed by L" % (L, Lb, dN, dP), case)
+                    break
         part.outcome((tag, len(idxs), real))
     part.nontriv((L, mode, real))
 
